@@ -6,9 +6,11 @@ spec/Trace_Aztec (validation of what the real decoder / reader returned for thos
 import json, random, time, concurrent.futures
 import vlib
 
-QUICK_SIZES = [(1, 1), (1, 2), (1, 3), (1, 4), (0, 1), (0, 4), (0, 5), (0, 8), (0, 9), (0, 22), (0, 23), (0, 32)]
+# compact k+1 and full-range k have the same width (19, 23, 27) but different layouts: kept adjacent, in both orders, because one
+# Decoder / AztecReader serves the whole run (state kept between symbols of equal width must not leak)
+QUICK_SIZES = [(1, 1), (1, 2), (0, 1), (1, 2), (0, 2), (1, 3), (0, 3), (1, 4), (0, 4), (0, 5), (0, 8), (0, 9), (0, 22), (0, 23), (0, 32)]
 ALL_SIZES = [(1, l) for l in range(1, 5)] + [(0, l) for l in range(1, 33)]
-BLANK = dict(op="", c=0, layers=0, nd=0, items=[], rows=[], faults=[], flips=[], rot=0, scale=0, quiet=0,
+BLANK = dict(op="", c=0, layers=0, nd=0, items=[], rows=[], mask=[], faults=[], flips=[], rot=0, scale=0, quiet=0,
              bits=[], nbits=0, txt=[], err=0, panic=0, msg="", id=0)
 
 
@@ -52,7 +54,7 @@ def plan(ctx):
         extra = rng.sample([s for s in ALL_SIZES if s not in QUICK_SIZES and s[1] <= 16], 3)   # rotate the others in by seed
         sizes += extra
     else:
-        sizes = list(ALL_SIZES) + [(1, l) for l in range(1, 5)] + [(0, l) for l in range(1, 9)]   # small sizes twice
+        sizes = [(1, 2), (0, 1), (1, 2), (1, 3), (0, 2), (1, 3), (1, 4), (0, 3), (1, 4)] + list(ALL_SIZES) + [(0, l) for l in range(1, 9)]   # small sizes twice
     for (c, l) in sizes:
         ws = wordsize(l)
         pct = rng.randint(25, 60) if ws <= 8 else rng.randint(25, 40) if ws == 10 else rng.randint(18, 26)
@@ -149,6 +151,65 @@ def observe_symbols(ctx, traces):
     return out
 
 
+def mode_messages(ctx, rng):
+    """The mode message of every size x number of data codewords (all of them in the thorough tier): TLC lays the header and
+    its GF(16) check words round the mode ring (Gen_AztecCore); detector.Detect has to announce (compact, layers, nd)."""
+    cores = []
+    for (c, l) in ALL_SIZES:
+        ws = wordsize(l)
+        ncw = ((88 if c else 112) + 16 * l) * l // ws
+        hi = min(ncw - 3, 64 if c else 2048)
+        if ctx.quick:
+            nds = {1, 2, hi, hi - 1} | {x for k in range(12) for x in ((1 << k), (1 << k) + 1, (1 << k) - 1 + (1 << (k // 2)))}
+            nds |= {rng.randint(1, hi) for _ in range(24)} | {rng.randint(max(1, hi * 2 // 3), hi) for _ in range(12)}
+            nds = sorted(x for x in nds if 1 <= x <= hi)
+        else:
+            nds = list(range(1, hi + 1))
+        cores.append(dict(c=c, layers=l, nds=nds))
+    res = _tlc(ctx, "Gen_AztecCore", "Gen_AztecCore", workers=4, timeout=1700, files={"cores.ndjson": cores})
+    out = {(x["c"], x["layers"]): x for x in vlib.tlc_printed(res)}
+    if len(out) != len(cores):
+        raise vlib.Infra("Gen_AztecCore printed %d of %d cores:\n%s" % (len(out), len(cores), res.out[-2000:]))
+    traces, n = [], 0
+    for k in cores:
+        x = out[(k["c"], k["layers"])]
+        if x["ncw"] != ((88 if k["c"] else 112) + 16 * k["layers"]) * k["layers"] // wordsize(k["layers"]) or x["nds"] != k["nds"]:
+            raise vlib.Infra("Gen_AztecCore: codeword count / request of %s differs from the plan" % k)
+        t = [dict(BLANK, op="tmpl", c=k["c"], layers=k["layers"], rows=x["rows"], mask=x["mask"])]
+        for nd, cells in zip(x["nds"], x["modes"]):
+            n += 1
+            t.append(dict(BLANK, op="det", nd=nd, flips=cells, rot=rng.randrange(4), scale=rng.choice([3, 3, 4]), quiet=rng.choice([2, 3]), id=n))
+        traces.append(t)
+    return traces
+
+
+def observe_modes(ctx, traces):
+    inputs = [e for t in traces for e in t]
+    obs = vlib.drive(ctx, "c11", inputs, timeout=1700)
+    bad = vlib.validate(ctx, "Trace_Aztec", obs, stateless=False, timeout=1700)
+    ctx.traces += len(traces)
+    c = l = 0
+    out = []
+    starts = {}
+    for i, o in enumerate(obs):
+        if o["op"] == "tmpl":
+            c, l, t0 = o["c"], o["layers"], i
+        else:
+            ctx.count_case(("det", c, l, o["nd"], o["rot"], o["scale"]))
+        starts[i] = t0
+    for gi, ent in bad:
+        ev = dict(obs[gi])
+        if len(ent) < 3 or ent[2] != "decode":
+            raise vlib.Infra("Trace_Aztec: premise of event %d (%s) does not hold - the input is not the spec's mode message" % (gi, ev["op"]))
+        r = obs[starts[gi]]
+        ev.update(c=r["c"], layers=r["layers"], rows=[], flips=ev["flips"][:8])
+        out.append((ev, "detector.Detect on a %s symbol with %d layers announcing %d data codewords, rotation %d, scale %d: read %s" % (
+            "compact" if r["c"] else "full-range", r["layers"], ev["nd"], ev["rot"], ev["scale"], ev["txt"]),
+            [inputs[starts[gi]], inputs[gi]]))
+    ctx.extra["mode_messages"] = len(inputs) - len(traces)
+    return out
+
+
 def observe_scripts(ctx, hl_events):
     if not hl_events:
         return []
@@ -197,7 +258,7 @@ def run(ctx):
         syms = gen_symbols(ctx, cases)
         stamp["generation"] = time.time() - t0
         traces = [symbol_events(ctx, s, rng) for s in syms]
-        return syms, observe_symbols(ctx, traces) + observe_scripts(ctx, [hl_event(s) for s in syms])
+        return syms, observe_symbols(ctx, traces) + observe_scripts(ctx, [hl_event(s) for s in syms]) + observe_modes(ctx, mode_messages(ctx, rng))
 
     with concurrent.futures.ThreadPoolExecutor(max_workers=2) as ex:
         fa, fb = ex.submit(message_layer), ex.submit(symbols)
@@ -232,6 +293,8 @@ def replay(ctx, path):
     ins = r["inputs"]
     if ins and ins[0]["op"] == "hl":
         report(ctx, observe_scripts(ctx, ins), "replay")
+    elif ins and ins[0]["op"] == "tmpl":
+        report(ctx, observe_modes(ctx, [ins]), "replay")
     else:
         report(ctx, observe_symbols(ctx, [ins]), "replay")
     return vlib.finish(ctx, rule="replay of one recorded decode")
